@@ -505,3 +505,94 @@ Proof.
   cbv zeta in Hd. fold L order in Hd.
   destruct (dual_counts _ _ _ _ _ _ _ _ Hdel Hd) as (H1 & H2 & _). split; assumption.
 Qed.
+
+(* ------------------------------------------------------------------ the exact periodicity implies the index-level one *)
+Lemma inner_outer_of : forall S vs rv r i o, pvor S vs rv -> In r (select S vs 1 rv) ->
+  (r = (i, o) \/ r = (o, i)) -> in_unit S (vat vs i) = true -> in_unit S (vat vs o) = false ->
+  inner S vs r = i /\ outer S vs r = o.
+Proof.
+  intros S vs rv r i o HP Hr Hor Ui Uo. unfold inner, outer.
+  destruct Hor as [-> | ->]; simpl; [rewrite Ui|rewrite Uo]; auto.
+Qed.
+
+Theorem pvor_implies_pvor_t : forall S vs rv, pvor S vs rv -> pvor_t S vs rv.
+Proof.
+  intros S vs rv HP. pose proof (pv_S _ _ _ HP) as HS. pose proof (pv_nodup _ _ _ HP) as HN.
+  (* per crossing ridge: inner / outer end, the image of the outer end *)
+  assert (Hio : forall r, In r (select S vs 1 rv) -> exists i o,
+            (r = (i, o) \/ r = (o, i)) /\ inner S vs r = i /\ outer S vs r = o /\
+            0 <= i < Z.of_nat (length vs) /\ 0 <= o < Z.of_nat (length vs) /\
+            in_unit S (vat vs i) = true /\ in_unit S (vat vs o) = false /\
+            In (wrap S (vat vs o)) vs /\ wrap S (vat vs i) <> wrap S (vat vs o) /\
+            nth (img S vs o) vs (0, 0) = wrap S (vat vs o)).
+  { intros r Hr. destruct (crossing_io S vs rv r HP Hr) as (i & o & Hor & Ri & Ro & Ui & Uo & Ci & Co & _).
+    destruct (inner_outer_of S vs rv r i o HP Hr Hor Ui Uo) as [Ei Eo].
+    exists i, o. repeat (split; [assumption|]). split.
+    - pose proof (pv_noloop _ _ _ HP r Hr) as Hn. destruct Hor as [-> | ->]; simpl in Hn; [exact Hn|].
+      intro E. apply Hn. symmetry. exact E.
+    - unfold img. apply nearest_exact. exact Co. }
+  constructor.
+  - exact HS.
+  - exact (pv_wf _ _ _ HP).
+  - exact (pv_distinct _ _ _ HP).
+  - exact HN.
+  - (* the directed edges are pairwise different *)
+    apply (NoDup_map_coarser _ _ _ (dir_edge S vs) upair (select S vs 1 rv)); [exact (pv_ridges _ _ _ HP)|].
+    intros r1 r2 H1 H2 E.
+    destruct (Hio r1 H1) as (i1 & o1 & Hor1 & Ei1 & Eo1 & Ri1 & Ro1 & Ui1 & Uo1 & Co1 & _ & N1).
+    destruct (Hio r2 H2) as (i2 & o2 & Hor2 & Ei2 & Eo2 & Ri2 & Ro2 & Ui2 & Uo2 & Co2 & _ & N2).
+    assert (E1 : fst (fst (dir_edge S vs r1)) = fst (fst (dir_edge S vs r2))) by exact (f_equal (fun e : edge => fst (fst e)) E).
+    assert (E2 : snd (fst (dir_edge S vs r1)) = snd (fst (dir_edge S vs r2))) by exact (f_equal (fun e : edge => snd (fst e)) E).
+    assert (E3 : fst (snd (dir_edge S vs r1)) = fst (snd (dir_edge S vs r2))) by exact (f_equal (fun e : edge => fst (snd e)) E).
+    assert (E4 : snd (snd (dir_edge S vs r1)) = snd (snd (dir_edge S vs r2))) by exact (f_equal (fun e : edge => snd (snd e)) E).
+    unfold dir_edge in E1, E2, E3, E4. cbn [fst snd] in E1, E2, E3, E4.
+    rewrite Ei1, Ei2 in E1. rewrite Eo1, Eo2 in E2. rewrite Eo1, Eo2 in E3. rewrite Eo1, Eo2 in E4.
+    unfold cell_pt in E3, E4. cbn [fst snd] in E3, E4.
+    assert (Ei : i1 = i2) by lia.
+    assert (Ew : wrap S (vat vs o1) = wrap S (vat vs o2)) by (rewrite <- N1, <- N2, E2; reflexivity).
+    assert (Ep : vat vs o1 = vat vs o2).
+    { rewrite (tr_wrap S (vat vs o1)), (tr_wrap S (vat vs o2)), Ew. unfold cell_pt. rewrite E3, E4. reflexivity. }
+    unfold vat in Ep. apply (NoDup_nth_pt vs) in Ep; [|exact HN|lia|lia].
+    assert (Eo : o1 = o2) by lia.
+    rewrite <- Ei, <- Eo in Hor2. destruct Hor1 as [-> | ->]; destruct Hor2 as [-> | ->]; try reflexivity; apply upair_swap.
+  - exact (pv_ridges2 _ _ _ HP).
+  - intros r Hr i o o'.
+    destruct (crossing_io S vs rv r HP Hr) as (i0 & o0 & Hor & Ri & Ro & Ui & Uo & Ci & Co & Hl & _ & r' & Hr' & Hf' & Htr).
+    destruct (inner_outer_of S vs rv r i0 o0 HP Hr Hor Ui Uo) as [Ei Eo].
+    subst i o o'. rewrite Ei, Eo.
+    assert (N : nth (img S vs o0) vs (0, 0) = wrap S (vat vs o0)) by (unfold img; apply nearest_exact; exact Co).
+    assert (Lo : (img S vs o0 < length vs)%nat).
+    { unfold img. apply nearest_spec. intro E. rewrite E in Co. inversion Co. }
+    split; [rewrite N; apply wrap_in_unit; exact HS|]. split.
+    { intro E. apply Hl. unfold is_loop, pedge. simpl. fold (img S vs o0). rewrite E.
+      rewrite (wrap_id S _ HS Ui). unfold vat. rewrite nearest_self by (auto; lia). reflexivity. }
+    exists r'. split; [exact Hr'|].
+    cbv zeta in Htr. set (c := cell_pt S (vat vs o0)) in *.
+    assert (Hc0 : c <> (0, 0)) by (apply not_in_unit_cell; assumption).
+    assert (Ewo : tr S (vat vs o0) (pt_opp c) = wrap S (vat vs o0)) by (symmetry; apply wrap_eq_tr).
+    destruct (finite_wf_range _ r' (pv_wf _ _ _ HP r' Hr') Hf') as [R1' R2'].
+    (* the end of r' at the image of o0 has index img o0; the other end is a translate of the inner end *)
+    assert (G : forall x a', 0 <= x < Z.of_nat (length vs) -> 0 <= a' < Z.of_nat (length vs) ->
+              vat vs x = tr S (vat vs o0) (pt_opp c) -> vat vs a' = tr S (vat vs i0) (pt_opp c) ->
+              x = Z.of_nat (img S vs o0) /\ in_unit S (vat vs a') = false /\ img S vs a' = Z.to_nat i0 /\
+              cell_pt S (vat vs a') = pt_opp c).
+    { intros x a' Rx Ra Ex Ea. split.
+      - rewrite Ewo, <- N in Ex. unfold vat in Ex. apply (NoDup_nth_pt vs) in Ex; [lia|exact HN|lia|exact Lo].
+      - assert (Ecell : cell_pt S (vat vs a') = pt_opp c).
+        { rewrite Ea, cell_pt_tr by exact HS. apply (in_unit_cell S _ HS) in Ui. rewrite Ui. unfold pt_opp. simpl.
+          reflexivity. }
+        split; [|split; [|exact Ecell]].
+        + destruct (in_unit S (vat vs a')) eqn:E; [|reflexivity]. exfalso. apply (in_unit_cell S _ HS) in E.
+          rewrite Ecell in E. apply Hc0. unfold pt_opp in E. unfold c, cell_pt in *. simpl in E.
+          injection E as E1 E2. f_equal; lia.
+        + unfold img. rewrite Ea, wrap_tr by exact HS. rewrite (wrap_id S _ HS Ui). unfold vat.
+          apply nearest_self; [exact HN|lia]. }
+    unfold is_translate_t. rewrite Hf'. simpl andb.
+    destruct Htr as [[E1 E2]|[E1 E2]].
+    + destruct (G (snd r') (fst r') R2' R1' E2 E1) as (Gx & Gu & Gi & Gc).
+      assert (Hne : fst r' <> snd r') by (apply (pv_distinct _ _ _ HP r' Hr' Hf')).
+      destruct (Z.eqb_spec (fst r') (Z.of_nat (img S vs o0))) as [Ef|Nf]; [congruence|].
+      rewrite <- Gx, Z.eqb_refl. simpl. rewrite Gu, Gi, Nat.eqb_refl. apply pt_eqb_eq. exact Gc.
+    + destruct (G (fst r') (snd r') R1' R2' E1 E2) as (Gx & Gu & Gi & Gc).
+      rewrite <- Gx, Z.eqb_refl. simpl. rewrite Gu, Gi, Nat.eqb_refl. apply pt_eqb_eq. exact Gc.
+Qed.
